@@ -70,7 +70,7 @@ def main(argv=None):
 
     nshards = args.shards or getattr(mod, 'SHARDS', {}).get(args.tier, 16)
     nshards = max(1, min(nshards, (os.cpu_count() or 4)))
-    timeout = getattr(mod, 'SHARD_TIMEOUT', {}).get(args.tier, 600 if args.tier == 'quick' else 3600)
+    timeout = getattr(mod, 'SHARD_TIMEOUT', {}).get(args.tier, 1200 if args.tier == 'quick' else 9000)
     tmp = tempfile.mkdtemp(prefix='vmon-%s-' % prop_id)
     procs = []
     try:
